@@ -197,3 +197,36 @@ def extract_fn(path: str, src: str, impl_pat: str, fn_name: str):
     return dict(impl=hdr, sig=sig, body=body,
                 line_start=line_of(src, f["start"]), line_end=line_of(src, f["body_close"]),
                 body_line=line_of(src, f["body_open"]))
+
+
+def extract_region(path: str, src: str, fn_name: str, start_pat: str, end_pat: str):
+    """Locate fn `fn_name` anywhere in the file (also nested inside other items) and
+    return the text of its body from the first occurrence of start_pat up to and
+    including the last occurrence of end_pat (both whitespace-insensitive literals)."""
+    m = mask(src)
+    nc = mask(src, comments_only=True)
+    cands = []
+    for mm in re.finditer(r"(?<![\w])fn\s+%s\b" % re.escape(fn_name), m):
+        k = mm.end()
+        while k < len(m) and m[k] not in "{;":
+            if m[k] in "([":
+                k = match_close(m, k)
+            k += 1
+        if k < len(m) and m[k] == "{":
+            cands.append((mm.start(), k, match_close(m, k)))
+    if len(cands) != 1:
+        raise ExtractError("region anchor %s :: fn %s matched %d items" % (path, fn_name, len(cands)))
+    st, bo, bc = cands[0]
+    body = nc[bo + 1:bc]
+    def rx(p):
+        toks = re.findall(r"[A-Za-z_0-9]+|\S", p)
+        return r"\s*".join(re.escape(t) for t in toks)
+    ms = list(re.finditer(rx(start_pat), body))
+    me = list(re.finditer(rx(end_pat), body))
+    if len(ms) != 1 or len(me) < 1:
+        raise ExtractError("region markers in %s::%s matched %d / %d times" % (path, fn_name, len(ms), len(me)))
+    a, b = ms[0].start(), me[-1].end()
+    if b <= a:
+        raise ExtractError("region markers out of order in %s::%s" % (path, fn_name))
+    text = body[a:b]
+    return dict(impl="", sig="", body=text, line_start=line_of(src, bo + 1 + a), line_end=line_of(src, bo + 1 + b), body_line=line_of(src, bo + 1 + a))
